@@ -723,10 +723,10 @@ def reserveFini (s : State) (b : Nat) (x : Buf) : Out Unit :=
   | none => .ok s ()
 
 /-- incompatible data of a private buffer is dropped by `mpt_array_reserve` (types are compatible when
-    they share the finaliser) -/
+    they share the finaliser and the element size) -/
 def reserveClear (s : State) (b : Nat) (x : Buf) (traits : Option Traits) : Out Unit :=
   if x.traits ≠ traits ∧ (x.traits.isNone ∨ (x.traits.bind (·.fini)).isNone ∨ traits.isNone
-      ∨ x.traits.bind (·.fini) ≠ traits.bind (·.fini)) then
+      ∨ x.traits.bind (·.fini) ≠ traits.bind (·.fini) ∨ esize x.traits ≠ esize traits) then
     match reserveFini s b x with
     | .ok s1 _ =>
       (match s1.buf? b with
@@ -765,7 +765,10 @@ def arrayReserve (s : State) (h len : Nat) (traits : Option Traits) : Out Nat :=
       match s.buf? b with
       | none => .fault "reserve: freed buffer"
       | some x =>
-        if x.shared ∨ x.immutable then reserveNew s h (some b) (reserveLen x (roundUp len (esize traits)) traits) traits
+        if x.shared ∨ x.immutable then
+          -- content of the same type that can not be copied must not get lost: refused
+          if x.traits = traits ∧ x.uncopyable ∧ x.used - x.used % esize x.traits ≠ 0 then .fail s .null
+          else reserveNew s h (some b) (reserveLen x (roundUp len (esize traits)) traits) traits
         else reserveKeep s h b x (roundUp len (esize traits)) traits
 
 /-- `vsnprintf(base, len, "%s", text)` into the buffer at `pos`: at most `len-1` characters and a NUL -/
@@ -1023,6 +1026,13 @@ def sourcesInit (s : State) (k : Nat) : State :=
 def sourcesFini (s : State) (first k : Nat) : State :=
   { s with log := s.log ++ (List.range k).map fun i => Ev.fini (first + i) }
 
+/-- harness set-up: drop `h`, then a new buffer (any flags) whose owner constructs `k` elements of type `t` in place -/
+def allocOpE (s : State) (h n flags : Nat) (t : Traits) (k : Nat) : Out Unit :=
+  match arrayClone s h none with
+  | .ok s1 _ => allocOp (sourcesInit s1 k) h n flags (some t) (sourcesBytes s1.next k t.size)
+  | .fail s1 e => .fail s1 e
+  | .fault w => .fault w
+
 /-- `mpt_array_set(arr, traits, k elements, data, off)` as callers perform it: with `withSrc` the caller
     constructs `k` source elements, passes them as data and destroys them afterwards; otherwise the data pointer is
     NULL (default construction) -/
@@ -1033,6 +1043,16 @@ def setOpE (s : State) (h : Nat) (t : Traits) (off : Int) (k : Nat) (withSrc : B
     | .fail s' e => .fail (sourcesFini s' s.next k) e
     | .fault w => .fault w
   else arraySet s h (some t) (zeros (k * t.size)) false off
+
+/-- `mpt_buffer_set` on the private buffer with `k` source elements the caller constructs, passes and destroys again -/
+def bsetSrcE (s : State) (h pos k : Nat) : Out Int :=
+  match ((s.handle h).bind s.buf?).bind (·.traits) with
+  | none => .fail s .null
+  | some t =>
+    match bsetOp (sourcesInit s k) h pos (sourcesBytes s.next k t.size) true with
+    | .ok s' v => .ok (sourcesFini s' s.next k) v
+    | .fail s' e => .fail (sourcesFini s' s.next k) e
+    | .fault w => .fault w
 
 /-- constructions done by the caller in library-provided memory (never refused) -/
 def ctorLoop : Nat → State → Nat → Nat → Nat → Out Unit
